@@ -1037,7 +1037,33 @@ def run(ctx):
     for lab, d in vvalid:
         recipes.append({'kind': 'edit', 'base_name': lab, 'base': base64.b64encode(d).decode(), 'ops': [['write']], 'pure': False,
                         'variant': True})
-    ctx.log('%d single-step variants of the corpus bases, %d schema-valid and self-consistent' % (len(vdocs), nvariants))
+    # ---- every single assignment of an optional field that save() has to create a child for, on the
+    # corpus bases (oracle-only like the variants): contributor fields, light parameters, sampler
+    # filters, shader parameters
+    nsingle = 0
+    for name in ('corpus:rich_base.dae', 'corpus:sparse_base.dae'):
+        if name not in valid_bases:
+            continue
+        singles = []
+        for c in range(2):
+            for f, v in (('author', 'filled'), ('authoring_tool', 'filled'), ('comments', 'filled'), ('copyright', 'filled'),
+                         ('source_data', 'file:///filled')):
+                singles.append(['contributor_set', c, {f: v}])
+        for li in range(3):
+            for a in ('constant_att', 'linear_att', 'quad_att', 'falloff_ang', 'falloff_exp'):
+                singles.append(['light_set', li, {a: 0.5}])
+        for si in range(2):
+            for mn, mg in (('LINEAR', None), (None, 'LINEAR'), ('NEAREST', 'LINEAR')):
+                singles.append(['sampler_filters', si, mn, mg])
+        for ei in range(2):
+            for k in range(10):
+                singles.append(['effect_set', ei, k, ['color', [0.5, 0.5, 0.5, 1.0]], ['float', 0.5]])
+        for op in singles:
+            recipes.append({'kind': 'edit', 'base_name': name, 'ops': [op, ['write']], 'pure': False, 'variant': True})
+            nsingle += 1
+    nvariants += nsingle
+    ctx.log('%d single-step variants of the corpus bases, %d schema-valid and self-consistent; %d single optional-field assignments'
+            % (len(vdocs), nvariants - nsingle, nsingle))
     ctx.log('running %d recipes on the implementation' % len(recipes))
     results = H.run_recipes(recipes)
     docs = []       # (recipe index, doc index, bytes, scratch-conformance wanted)
